@@ -290,6 +290,31 @@ func (s *Sim) drawScript(b int) *Script {
 				honest = append(honest, i)
 			}
 		}
+		// two-victim mode: two honest participants get malformed shares (so they complain at once, before
+		// the vector), the dealer answers both complaints ahead of its vector - one answer right, one
+		// wrong, in either order - and sends the vector last. Receivers then hold several complaints that
+		// were received AND answered before the vector arrived.
+		if len(honest) >= 2 && s.Sc.T >= 2 && r.IntN(4) == 0 {
+			p := r.Perm(len(honest))
+			j1, j2 := honest[p[0]], honest[p[1]]
+			for i := 0; i < s.Sc.N; i++ {
+				sc.Share[i] = Behaviour{Act: "pass"}
+			}
+			mal := []string{"empty", "tag-only", "short", "long", "zero", "r", "wrong-tag"}
+			sc.Share[j1] = Behaviour{Act: "mangle", Arg: mal[r.IntN(len(mal))]}
+			sc.Share[j2] = Behaviour{Act: "mangle", Arg: mal[r.IntN(len(mal))]}
+			sc.Vector = Behaviour{Act: "hold"}
+			sc.Complaint = Behaviour{Act: "pass"}
+			sc.Answer = []Behaviour{{Act: "pass"}, {Act: "drop"}, {Act: "pass"}}[r.IntN(3)]
+			kinds := [][2]string{{"early-answer-valid", "early-answer-wrong"}, {"early-answer-wrong", "early-answer-valid"}, {"early-answer-valid", "early-answer-valid"}, {"early-answer-wrong", "early-answer-wrong"}}[r.IntN(4)]
+			sc.Inject = append(sc.Inject, Injection{Round: 1, Kind: kinds[0], A: j1}, Injection{Round: 1, Kind: kinds[1], A: j2})
+			if r.IntN(3) == 0 && len(honest) >= 3 {
+				sc.Share[honest[p[2]]] = Behaviour{Act: "mangle", Arg: mal[r.IntN(len(mal))]}
+				sc.Inject = append(sc.Inject, Injection{Round: 1, Kind: "early-answer-valid", A: honest[p[2]]})
+			}
+			s.Features["script.two-victims"]++
+			return sc
+		}
 		if len(honest) > 0 {
 			j := honest[r.IntN(len(honest))]
 			for i := 0; i < s.Sc.N; i++ {
